@@ -200,14 +200,18 @@ def parseFlowSeq : Nat → Str → List Node → R (Node × Str)
     | s' =>
       match parseFlow fuel s' with
       | .error e => .error e
-      | .ok (n, r) =>
-        match dropSpaces r with
-        | ',' :: r' => parseFlowSeq fuel r' (n :: acc)
-        | ']' :: r' => .ok (.seq (n :: acc).reverse, r')
-        | ':' :: _ => .error (.unsupported "single-pair mapping in flow sequence")
-        | [] => .error (.unsupported "multi-line flow collection")
-        | '#' :: _ => .error (.unsupported "comment inside a flow collection")
-        | _ => .error (.syntax "expected , or ] in flow sequence")
+      | .ok (n, r) => parseFlowSeqTail fuel r (n :: acc)
+/-- After an item of a flow sequence: `,` or `]`. -/
+def parseFlowSeqTail : Nat → Str → List Node → R (Node × Str)
+  | 0, _, _ => .error .fuel
+  | fuel + 1, r, acc =>
+    match dropSpaces r with
+    | ',' :: r' => parseFlowSeq fuel r' acc
+    | ']' :: r' => .ok (.seq acc.reverse, r')
+    | ':' :: _ => .error (.unsupported "single-pair mapping in flow sequence")
+    | [] => .error (.unsupported "multi-line flow collection")
+    | '#' :: _ => .error (.unsupported "comment inside a flow collection")
+    | _ => .error (.syntax "expected , or ] in flow sequence")
 def parseFlowMap : Nat → Str → List (Node × Node) → R (Node × Str)
   | 0, _, _ => .error .fuel
   | fuel + 1, s, acc =>
@@ -218,25 +222,25 @@ def parseFlowMap : Nat → Str → List (Node × Node) → R (Node × Str)
       | .error e => .error e
       | .ok (k, r) =>
         match dropSpaces r with
-        | ',' :: r' => parseFlowMap fuel r' ((k, .scalar true []) :: acc)
-        | '}' :: r' => .ok (.map ((k, .scalar true []) :: acc).reverse, r')
         | ':' :: r' =>
           (match dropSpaces r' with
-          | ',' :: r'' => parseFlowMap fuel r'' ((k, .scalar true []) :: acc)
-          | '}' :: r'' => .ok (.map ((k, .scalar true []) :: acc).reverse, r'')
+          | ',' :: _ => parseFlowMapTail fuel (dropSpaces r') ((k, .scalar true []) :: acc)
+          | '}' :: _ => parseFlowMapTail fuel (dropSpaces r') ((k, .scalar true []) :: acc)
           | _ =>
             match parseFlow fuel r' with
             | .error e => .error e
-            | .ok (v, r'') =>
-              match dropSpaces r'' with
-              | ',' :: r3 => parseFlowMap fuel r3 ((k, v) :: acc)
-              | '}' :: r3 => .ok (.map ((k, v) :: acc).reverse, r3)
-              | [] => .error (.unsupported "multi-line flow collection")
-              | '#' :: _ => .error (.unsupported "comment inside a flow collection")
-              | _ => .error (.syntax "expected , or } in flow mapping"))
-        | [] => .error (.unsupported "multi-line flow collection")
-        | '#' :: _ => .error (.unsupported "comment inside a flow collection")
-        | _ => .error (.syntax "expected : , or } in flow mapping")
+            | .ok (v, r'') => parseFlowMapTail fuel r'' ((k, v) :: acc))
+        | _ => parseFlowMapTail fuel r ((k, .scalar true []) :: acc)
+/-- After an entry of a flow mapping: `,` or `}`. -/
+def parseFlowMapTail : Nat → Str → List (Node × Node) → R (Node × Str)
+  | 0, _, _ => .error .fuel
+  | fuel + 1, r, acc =>
+    match dropSpaces r with
+    | ',' :: r' => parseFlowMap fuel r' acc
+    | '}' :: r' => .ok (.map acc.reverse, r')
+    | [] => .error (.unsupported "multi-line flow collection")
+    | '#' :: _ => .error (.unsupported "comment inside a flow collection")
+    | _ => .error (.syntax "expected : , or } in flow mapping")
 end
 
 /-! ## Block scalars -/
@@ -399,11 +403,11 @@ def parseInline (t : Str) : R Node :=
     | .ok (s, r) => if restOk r then .ok (.scalar false s) else .error (.syntax "content after quoted scalar")
     | .error e => .error e
   | '[' :: _ =>
-    match parseFlow (2 * t.length + 4) t with
+    match parseFlow (4 * t.length + 4) t with
     | .ok (n, r) => if restOk r then .ok n else .error (.syntax "content after flow collection")
     | .error e => .error e
   | '{' :: _ =>
-    match parseFlow (2 * t.length + 4) t with
+    match parseFlow (4 * t.length + 4) t with
     | .ok (n, r) => if restOk r then .ok n else .error (.syntax "content after flow collection")
     | .error e => .error e
   | '*' :: rest =>
